@@ -1,10 +1,11 @@
 from common import COMMON_TRUST
-from wt_common import WT_LEAN, WT_TRUST, wt_engine
+from wt_common import WT_LEAN, WT_TRUST, wt_engine, e2e_engine, E2E_TRUST
 
 PROP = {
     "generated": [],
     "lean_modules": WT_LEAN,
-    "engines": [wt_engine("C04")],
+    "engines": [
+        e2e_engine("C04"),wt_engine("C04")],
     "level_text": "Proof: for every registry and every interleaving of lane events, link/unlink/lane-not-found "
                   "messages and write completions on one remote's Uplinks queue: no event body is ever sent (or "
                   "buffered) that was not pushed for that lane (no fabrication), at most one write is in flight, "
@@ -16,7 +17,7 @@ PROP = {
                   "monitor (open as a theorem).",
     "level_note": "The frame-language statement for the composed write task is checked by monitor + correspondence, "
                   "not proved; the read task, select! ordering and real socket back-pressure are outside the model.",
-    "trusted_base": COMMON_TRUST + WT_TRUST,
+    "trusted_base": COMMON_TRUST + WT_TRUST + E2E_TRUST,
     "assumptions": ["one WriteTaskEvent is processed at a time (single task)",
                     "a remote id is attached at most once (ids are unique per connection)"],
 }
